@@ -8,7 +8,7 @@ import vlib
 C04_OPS = ["ctor_default", "ctor_ext", "ctor_fill", "ctor_iota", "ctor_view", "decay", "ctor_range", "ctor_copy", "ctor_move",
            "ctor_ref", "ctor_other", "ctor_il", "assign_copy", "assign_move", "assign_other", "assign_il", "swap",
            "assign_view", "self_assign", "write", "write_last", "destroy"]
-C06_OPS = ["reextent", "reextent_fill", "clear", "assign_empty", "reshape", "assign_range"]
+C06_OPS = ["reextent", "reextent_fill", "reextent_move", "clear", "assign_empty", "reshape", "assign_range"]
 MOVES = {"ctor_move", "assign_move"}
 
 
@@ -25,7 +25,10 @@ def hline(pid, rec, nslots):
     return " ".join(parts) + "\n"
 
 
-def compare(exp, o, check_first=True):
+PATTERN = 0x5A5A5A5A   # the dirty allocator fills fresh storage with this
+
+
+def compare(exp, o, check_first=True, pattern=False):
     if o is None:
         return [("missing", None, None)]
     if o.get("st") == "abort":
@@ -59,6 +62,9 @@ def compare(exp, o, check_first=True):
         ev, av = e["val"], a.get("val", [])
         if len(ev) != len(av) or any(x != -1 and x != y for x, y in zip(ev, av)):
             bad.append(("elements[%d]" % k, ev, av))
+        elif pattern and any(x == -1 and y != PATTERN for x, y in zip(ev, av)):
+            # elements the specification leaves unspecified must not have been written at all
+            bad.append(("wrote_to_trivial_elements[%d]" % k, "untouched storage pattern", av))
         if "val_by_index" in a:
             bad.append(("elements_by_index_vs_flat[%d]" % k, av, a["val_by_index"]))
     if o.get("disjoint") is not True:
@@ -72,7 +78,7 @@ def compare(exp, o, check_first=True):
     return bad
 
 
-def run_config(rep, prop, name, constants, exe, wd, nslots, sim=None, check_first=True, sig_extra=None, timeout=1500):
+def run_config(rep, prop, name, constants, exe, wd, nslots, sim=None, check_first=True, sig_extra=None, timeout=1500, trace=False, faults=False, pattern=False, judge_values=True):
     cfg = os.path.join(wd, name + ".cfg")
     vlib.write_cfg(cfg, spec="ASpec", constants=constants, invariants=["ATypeOK"], properties=["Independence"], view="AVW",
                    constraints=["AEmitC"])
@@ -91,7 +97,14 @@ def run_config(rep, prop, name, constants, exe, wd, nslots, sim=None, check_firs
         lines.append(hline(len(exps) - 1, rec, nslots))
     if not exps:
         raise vlib.Broken("no histories emitted by " + name)
-    obs, crashes = vlib.run_replayer_chunks(exe, lines, wd, name)
+    traces = []
+    args_fn = None
+    if trace:
+        def args_fn(ci, rnd):
+            tf = os.path.join(wd, "%s_trace_%d_%d.ndjson" % (name, ci, rnd))
+            traces.append(tf)
+            return [tf] + (["faults"] if faults else [])
+    obs, crashes = vlib.run_replayer_chunks(exe, lines, wd, name, args_fn=args_fn)
     for cr in crashes:
         if cr["id"] is None:
             raise vlib.Broken("replayer failed: " + cr["stderr"][-800:])
@@ -109,7 +122,7 @@ def run_config(rep, prop, name, constants, exe, wd, nslots, sim=None, check_firs
         if pid in crashed:
             rep.violation(dict({"kind": "crash", "op": last["op"], "D": exp["D"]}, **(sig_extra or {})), {"history": exp, "crash": crashed[pid]})
             continue
-        bad = compare(exp, o, check_first)
+        bad = compare(exp, o, check_first, pattern) if judge_values else []
         if bad:
             prev = exp["hist"][-2]["op"] if len(exp["hist"]) > 1 else "none"
             sig = {"kind": "mismatch", "op": last["op"], "w": "+".join(wo["op"] for wo in last["w"]) or "none", "field": bad[0][0].split("[")[0], "D": exp["D"], "prev": prev}
@@ -126,8 +139,11 @@ def run_config(rep, prop, name, constants, exe, wd, nslots, sim=None, check_firs
     if len(rep.cov["samples"]) < 3:
         pid = len(exps) * 2 // 3
         rep.cov["samples"].append({"history": exps[pid]["hist"], "prescribed": exps[pid]["arrays"], "observed": obs.get(pid)})
+    rep.notes["_last_exps"] = exps
+    rep.notes["_last_obs"] = obs
     vlib.log("%s %s: TLC %d generated / %d distinct; %d histories replayed, %d agree, %d unsupported" % (prop, name, res.generated, res.distinct, len(exps), nok, unsupported))
     os.remove(res.out_path)
+    return traces
 
 
 def build(wd, kind, name=None):
@@ -139,6 +155,8 @@ def build(wd, kind, name=None):
 
 
 def finish(rep, rule, exhaustive):
+    rep.notes.pop("_last_exps", None)
+    rep.notes.pop("_last_obs", None)
     nt = rep.notes.pop("_nontrivial", set())
     rep.cov["distinct_nontrivial"] = len(nt)
     return rep.finish(rule=rule, exhaustive=exhaustive)
